@@ -764,6 +764,11 @@ def move_before_loop(source: str) -> str:
 
             _, before_created, before_required = tracing.code_dependencies_outputs(before)
 
+            # If the node depends on names that it creates, like x = x + 1, it gives a new result
+            # on every iteration, so keep it in the loop
+            if node_created_names & node_required_names:
+                continue
+
             # If the loop may create names that the node depends on, keep it in the loop
             if maybe_created_names & node_required_names:
                 continue
